@@ -573,6 +573,16 @@ where
         if start_index > ef.len() {
             panic!("Index out of bounds: {} > {}", start_index, ef.len());
         }
+        if start_index == ef.len() {
+            // There is no element to select: the iterator is exhausted.
+            return Self {
+                ef,
+                index: start_index,
+                word_idx: 0,
+                window: 0,
+                low_bits: ef.low_bits.into_unchecked_iter_from(start_index),
+            };
+        }
         let bit_pos = unsafe { ef.high_bits.select_unchecked(start_index) };
         let word_idx = bit_pos / (usize::BITS as usize);
         let bits_to_clean = bit_pos % (usize::BITS as usize);
